@@ -138,6 +138,12 @@ def run(ctx):
         rule = ctx.rule
         sigclient.run(ctx)
         ctx.rule = rule + "; plus all relay histories of ClientEnv.tla (send side) against the real client: Send success implies the ack of that message was forwarded"
+    # 7. C24, system level: real clients' listen handlers against the real relay (SigSysEnv.tla histories)
+    if prop == "C24":
+        from checks import sigclient
+        rule = ctx.rule
+        sigclient.system(ctx, "C24")
+        ctx.rule = rule + "; plus SigSysEnv.tla system histories: after stabilisation every live client's listen handler knows exactly the peers holding a session request towards it"
 
 
 def strict(ctx, tpath):
